@@ -1,5 +1,6 @@
 from __future__ import annotations
 import typing as t
+import copy
 from collections.abc import KeysView
 from abc import ABCMeta, abstractmethod
 from .types import DictKey, AnyKey, KeyParameters
@@ -89,13 +90,16 @@ class BaseKey(t.Generic[NativePrivateKey, NativePublicKey], metaclass=ABCMeta):
             parameters: t.Optional[KeyParameters] = None):
         self._raw_value = raw_value
         self.original_value = original_value
-        self.extra_parameters = parameters
+        # the key keeps copies: the dicts (and the lists in them, "key_ops", "x5c")
+        # remain the caller's, who may change or reuse them afterwards
+        self.extra_parameters = copy.deepcopy(parameters)
         self._dict_value: DictKey = {}
         if isinstance(original_value, dict):
             if parameters is not None:
                 data = {**original_value, **parameters, "kty": self.key_type}
             else:
                 data = {**original_value, "kty": self.key_type}
+            data = copy.deepcopy(data)
             self.validate_dict_key(data)
             self._dict_value = data
 
@@ -177,7 +181,9 @@ class BaseKey(t.Generic[NativePrivateKey, NativePublicKey], metaclass=ABCMeta):
         if private and not self.is_private:
             raise ValueError("This key is not a private key.")
 
-        data = self.dict_value.copy()
+        # a shallow copy first (atomic, see below), then the lists inside: what the
+        # caller does to the exported dict must not reach the key
+        data = {k: copy.deepcopy(v) for k, v in self.dict_value.copy().items()}
         if private is not False:
             data.update(params)
             return data
